@@ -66,7 +66,7 @@ theorem it_spec_charge {cfg : Cfg} {s : State} (hord : cfg.order = .initCharge) 
       exact hvac ▸ h1
     simpa using (List.mem_filter.mp hm).2
   unfold initializeTracks
-  simp only [hso]
+  simp only [hso, if_true]
   by_cases hn : min s.c.numVacancies s.c.numInitializers > 0
   · simp only [hn, if_true]
     have hnle : min s.c.numVacancies s.c.numInitializers ≤ s.slots.length := by
@@ -163,8 +163,8 @@ theorem itSpec_charge {cfg : Cfg} (hord : cfg.order = .initCharge) : ITSpec cfg 
 
 /-- InitializeTracks meets its specification for both layouts of new tracks -/
 theorem itSpec_all (cfg : Cfg) : ITSpec cfg := by
-  cases h : cfg.order with
-  | none => exact itSpec_none h
-  | initCharge => exact itSpec_charge h
+  by_cases h : cfg.order = .initCharge
+  · exact itSpec_charge h
+  · exact itSpec_none h
 
 end CelerVerif.TrackInit
